@@ -250,7 +250,10 @@ def r03_4(ctx: Ctx) -> None:
     # in remove_redundant_protoclusters a cluster is skipped only under is_redundant, which is set
     # only inside the loop over superiors' clusters
     rr = ctx.fn(CP, "remove_redundant_protoclusters")
-    appends = [c for c in calls(rr) if last_attr(c) == "append" and dotted(c.func) and "trimmed" in dotted(c.func)]
+    # the result list: the local that is returned and appended to
+    returned = {txt(r.value) for r in walk_local(rr) if isinstance(r, ast.Return) and isinstance(r.value, ast.Name)}
+    appends = [c for c in calls(rr) if last_attr(c) == "append" and isinstance(c.func, ast.Attribute)
+               and txt(c.func.value) in returned]
     if not appends:
         raise AnalysisError("remove_redundant_protoclusters: result append not found")
     from ..flow import path_facts
